@@ -116,6 +116,15 @@ func NewSchema(config SchemaConfig) (Schema, error) {
 		}
 	}
 
+	// directive argument types belong to the schema as well
+	for _, dir := range schema.directives {
+		for _, arg := range dir.Args {
+			if typeMap, err = typeMapReducer(&schema, typeMap, arg.Type); err != nil {
+				return schema, err
+			}
+		}
+	}
+
 	schema.typeMap = typeMap
 
 	// Keep track of all implementations by interface name.
@@ -318,6 +327,9 @@ func typeMapReducer(schema *Schema, typeMap TypeMap, objectType Type) (TypeMap, 
 	var err error
 	if isNilType(objectType) {
 		return typeMap, nil
+	}
+	if err := objectType.Error(); err != nil {
+		return typeMap, err
 	}
 	if objectType.Name() == "" {
 		return typeMap, nil
